@@ -21,11 +21,12 @@ CONSTANTS SS,          \* segment size of the model
           Lens,        \* plaintext lengths
           AliasFix,    \* TRUE: the WrapKeyFn receives the resolved algorithm (the code); FALSE: the alias as given
           OmitFix,     \* TRUE: OmitKeyName wins over DecryptionKeyName (the code); FALSE: it is ignored
+          WipesKey,    \* FALSE: the code; TRUE: Decrypt clears the slice the unwrap callback returned (the caller's cached key)
           HdrLimit     \* "ok": a header of more than hmax bytes is refused (filekey.go:109); "off-by-one": hmax bytes are refused too;
                        \* "none": never refused (the oversized header is written and Decrypt cannot read it back)
 
-VARIABLES o, ov, stage, doc, c
-vars == <<o, ov, stage, doc, c>>
+VARIABLES o, ov, stage, doc, cache, c
+vars == <<o, ov, stage, doc, cache, c>>
 
 RECURSIVE Feed(_, _)
 Feed(cc, evs) == IF evs = <<>> THEN cc ELSE Feed(CNext(cc, Head(evs)), Tail(evs))
@@ -42,6 +43,7 @@ Init ==
             klen : {1, HMax - HBase - 1, HMax - HBase, HMax - HBase + 1}]      \* length of the key name that goes into the manifest
   /\ ov \in {"", "k3"}
   /\ stage = "encrypt" /\ doc = <<>>
+  /\ cache = "intact"                \* the caller's key provider keeps the file key in memory and returns those bytes on every unwrap
   /\ c = CReset(o)
 
 (* scheme.go:105-181 *)
@@ -63,7 +65,7 @@ Encrypt ==
         /\ stage' = "decompose"
         /\ doc' = [scheme |-> SchemeLine, mf |-> mf, mac |-> <<"hmac", HKDF("FK", "", "header"), <<SchemeLine, mf>>>>, segs |-> segs]
         /\ c' = Feed(c, <<[ev |-> "wrap", alg |-> seen, keyName |-> o.keyName, fkLen |-> 32]>>)
-  /\ UNCHANGED <<o, ov>>
+  /\ UNCHANGED <<o, ov, cache>>
 
 UnwrapTerm(wfk, alg) == IF wfk[1] = "wrap" /\ wfk[2] = alg THEN wfk[3] ELSE "garbage"
 
@@ -82,25 +84,29 @@ Decompose ==
                         macOK |-> doc.mac = <<"hmac", HKDF(fk, "", "header"), <<doc.scheme, doc.mf>>>>,
                         payloadLen |-> o.len + Len(doc.segs)]>>
                      \o [j \in 1..Len(doc.segs) |-> segEv(j)])
-  /\ stage' = "decrypt" /\ UNCHANGED <<o, ov, doc>>
+  /\ stage' = "decrypt" /\ UNCHANGED <<o, ov, doc, cache>>
 
-(* scheme.go:184-245 *)
+(* scheme.go:184-245; the document is decrypted twice through the same (caching) key provider *)
 Decrypt ==
-  /\ stage = "decrypt"
+  /\ stage \in {"decrypt", "decrypt2"}
   /\ LET name == IF ov # "" THEN ov ELSE doc.mf.k
          alg  == AlgName(doc.mf.kw)
-         fk   == UnwrapTerm(doc.mf.wfk, alg)
+         fk   == IF cache = "intact" THEN UnwrapTerm(doc.mf.wfk, alg) ELSE "zeroed"      \* what the provider hands out
          ok   == doc.mac = <<"hmac", HKDF(fk, "", "header"), <<doc.scheme, doc.mf>>>> /\ HdrLen(doc.mf.k) <= HMax   \* readHeader reads one segment at most
-     IN c' = Feed(c, IF name = "" THEN <<[ev |-> "dec", by |-> "real", override |-> ov, n |-> 0, equal |-> FALSE, term |-> "decrypt-err"], [ev |-> "end"]>>
+         after == IF WipesKey /\ name # "" THEN "zeroed" ELSE cache
+         fin  == IF stage = "decrypt2" THEN <<[ev |-> "end"]>> ELSE <<>>
+     IN /\ cache' = after
+        /\ c' = Feed(c, (IF name = "" THEN <<[ev |-> "dec", by |-> "real", override |-> ov, n |-> 0, equal |-> FALSE, term |-> "decrypt-err"]>>
                      ELSE <<[ev |-> "unwrap", override |-> ov, alg |-> alg, keyName |-> name],
                             [ev |-> "dec", by |-> "real", override |-> ov, n |-> IF ok THEN o.len ELSE 0, equal |-> ok,
                              term |-> IF ok THEN "eof" ELSE "decrypt-err"],
-                            [ev |-> "end"]>>)
-  /\ stage' = "done" /\ UNCHANGED <<o, ov, doc>>
+                            [ev |-> "keycheck", intact |-> after = "intact"]>>) \o fin)
+  /\ stage' = (IF stage = "decrypt" THEN "decrypt2" ELSE "done") /\ UNCHANGED <<o, ov, doc>>
 
 Next == Encrypt \/ Decompose \/ Decrypt
 Spec == Init /\ [][Next]_vars
 NotBad == ~IsBad(c)
 (* wrap and unwrap see the same algorithm, whatever spelling the caller used *)
-WrapUnwrapAgree == (stage \in {"decompose", "decrypt", "done"} /\ doc # <<>>) => doc.mf.wfk[2] = AlgName(doc.mf.kw)
+CacheIntact == cache = "intact"
+WrapUnwrapAgree == (stage \in {"decompose", "decrypt", "decrypt2", "done"} /\ doc # <<>>) => doc.mf.wfk[2] = AlgName(doc.mf.kw)
 =============================================================================
